@@ -509,13 +509,14 @@ void getOffsetAndCount(const MultiTag &tag, const DataArray &array, const vector
                 ndsize_t count =  (*opt_range).second - (*opt_range).first;
                 data_count[dim_index] += count;
             } else {
+                optional<ndsize_t> ofst;
                 if (end_positions[dim_index][i] == start_positions[dim_index][i]) {
-                    optional<ndsize_t> ofst = positionToIndex(end_positions[dim_index][i], units[dim_index], PositionMatch::GreaterOrEqual, dimensions[dim_index]);  
-                    if (!ofst) {
-                        throw nix::OutOfBounds("util::offsetAndCount:An invalid range was encountered!");
-                    }
-                    temp_offset[i] = *ofst;
+                    ofst = positionToIndex(end_positions[dim_index][i], units[dim_index], PositionMatch::GreaterOrEqual, dimensions[dim_index]);
                 }
+                if (!ofst) {
+                    throw nix::OutOfBounds("util::offsetAndCount:An invalid range was encountered!");
+                }
+                data_offset[dim_index] = *ofst;
             }   
         }
         offsets.push_back(data_offset);
